@@ -483,6 +483,8 @@ class Compiler:
         # not really fit our model for function evaluation, therefore
         # it gets special threatment here.
         if node.fname == 'coalesce':
+            if not operands:
+                raise CompilationError('coalesce() function requires at least one argument', node)
             for operand in operands:
                 if operand.dtype != operands[0].dtype:
                     dtypes = ', '.join(operand.dtype.__name__ for operand in operands)
